@@ -42,9 +42,9 @@ func Decoy() {
 	for _, path := range []string{"a.html", "self.html", "p.html", "q.html", "card.html", "c19part.html", "c19leaf.html", "part.html", "./a.html"} {
 		e.ParseTemplateAndCache([]byte("DECOY"), path, 1)
 	}
-	src := "x {{ 1 | upcase }} <% if true %>y<% endif %> <% include 'a.html' %> {{ undefined_in_decoy }}"
+	src := "x {{ 1 | upcase }} <% if true %>y<% endif %> <% raw %>r<% endraw %><% comment %>c<% endcomment %> <% include 'a.html' %> {{ undefined_in_decoy }}"
 	if decoyCount%2 == 0 {
-		src = "x << 1 | upcase >> {% if true %}y{% endif %} {% include 'a.html' %} << undefined_in_decoy >>"
+		src = "x << 1 | upcase >> {% if true %}y{% endif %} {% raw %}r{% endraw %}{% comment %}c{% endcomment %} {% include 'a.html' %} << undefined_in_decoy >>"
 	}
 	if tpl, err := e.ParseString(src); err == nil {
 		tpl.RenderString(map[string]any{"a": []any{1, 2}})
